@@ -4,26 +4,30 @@ import vlib
 from c_indicators import load_findings, known_line
 
 NAMES = ['aapl', 'msft', 'brk-b']
+REPO_NAMES = ['aapl', 'msft', 'brk-b', 'brk.b', 'A']   # tickers with a dot exist (BRK.B)
 
 
 # ------------------------------------------------------------------------------------------ C10
 def gen_repo_history(rng, n):
     ops = []
-    day = {k: rng.randrange(0, 50) for k in NAMES}
+    day = {k: rng.randrange(0, 50) for k in REPO_NAMES}
+    backfill = rng.random() < 0.4      # histories in which older days are appended after newer ones
     for _ in range(n):
         r = rng.random()
-        name = rng.choice(NAMES)
+        name = rng.choice(REPO_NAMES)
         if r < 0.35:
             k = rng.choice([0, 1, 1, 2, 3, 5])
             ds = []
             for _ in range(k):
                 day[name] += rng.choice([0, 1, 1, 1, 2, 7])      # equal dates occur (GetSince boundary)
+                if backfill and rng.random() < 0.25:
+                    day[name] = max(0, day[name] - rng.randrange(1, 20))
                 ds.append(day[name])
             ops.append('a:%s:%s' % (name, ','.join(map(str, ds))))
         elif r < 0.55:
             ops.append('g:%s' % name)
         elif r < 0.75:
-            ops.append('s:%s:%d' % (name, max(0, day[name] + rng.randrange(-6, 3))))
+            ops.append('s:%s:%d' % (name, max(0, day[name] + rng.randrange(-12 if backfill else -6, 3))))
         elif r < 0.9:
             ops.append('l:%s' % name)
         else:
@@ -191,6 +195,8 @@ def check_c11(res, tier, replay):
             kinds.append('CSVFILE')
     go = vlib.run_go(lines)
     model = vlib.run_model([l for l, k in zip(lines, kinds) if k == 'CSVFILE'])
+    findings = load_findings('C11')
+    crlf = 0
     bad = mism = 0
     cells = set()
     for ln, k in zip(lines, kinds):
@@ -203,6 +209,12 @@ def check_c11(res, tier, replay):
                 bad += 1
                 res.violation({'lines': [ln.split(' ', 1)[1]], 'go_output': g[:300],
                                'oracle': 'rows written and read back are identical (floats bit-for-bit), whatever the column order / extra columns'})
+            elif 'crlf=' in g and int(g.split('crlf=')[1]) > 0:
+                if 'Csv CRLF' in findings:
+                    crlf += int(g.split('crlf=')[1])
+                else:
+                    bad += 1
+                    res.violation({'lines': [ln.split(' ', 1)[1]], 'go_output': g[:300], 'problem': 'a string containing CR LF is read back with the CR removed'})
         else:
             ops = body.split(';')
             cells.add((k, tuple(o.split(':')[0] for o in ops[:6])))
@@ -215,6 +227,8 @@ def check_c11(res, tier, replay):
             elif g != m:
                 mism += 1
                 res.violation({'broken': 'correspondence', 'name': 'CSVFILE', 'lines': [ln.split(' ', 1)[1]], 'go_output': g, 'model_output': m}, True)
+    if crlf:
+        res.known_hit.append(known_line(findings['Csv CRLF']) + ' [%d rows]' % crlf)
     res.samples = [{'case': lines[i][:160], 'go': go.get(lines[i].split(' ')[0], '')[:160]} for i in (0, len(lines) // 2, len(lines) - 1)]
     res.coverage.update({
         'evaluations': len(lines), 'distinct_nontrivial': len(cells),
@@ -300,9 +314,11 @@ def check_c12(res, tier, replay):
     # the same cases under the race detector (-race build of the harness)
     okr, msgr = vlib.build_harness(race=True)
     race_reports = 0
+    race_texts = []
     if okr:
         gr = vlib.run_go([l for l, c in zip(lines, cases) if c[0] > 1][:80 if tier == 'quick' else 600], race=True, nproc=4)
-        race_reports = sum(1 for v in gr.values() if 'crash' in v or 'DATA RACE' in v)
+        race_texts = vlib.race_reports()
+        race_reports = sum(1 for v in gr.values() if 'crash' in v or 'DATA RACE' in v) + len(race_texts)
     bad = mism = 0
     cells = set()
     for i, c in enumerate(cases):
@@ -320,6 +336,7 @@ def check_c12(res, tier, replay):
     if race_reports:
         bad += 1
         res.violation({'broken': 'data race', 'note': '%d sync runs with Workers > 1 crashed or reported a DATA RACE under the race detector' % race_reports,
+                       'reports': [r[:2500] for r in race_texts[:2]] if okr else [],
                        'cases': [list(c) for c in cases if c[0] > 1][:3]})
     res.samples = [{'case': lines[i][:200], 'go': go.get('y%d' % i, '')[:200]} for i in (0, len(lines) // 2)]
     res.coverage.update({
@@ -340,12 +357,14 @@ def check_c13(res, tier, replay):
     vlib.apply_obligations(res, 'C13')
     n = 40 if tier == 'quick' else 300
     cases = []
-    strat_pool = ['bh', 'macd', 'rsi', 'trix', 'bop', 'vwma']
+    strat_pool = ['bh', 'macd', 'rsi', 'trix', 'bop', 'vwma', 'at1', 'at2', 'at3', 'at5']
     if replay:
         cases = [tuple(c) for c in json.load(open(replay)).get('cases', [])]
     else:
         for _ in range(n):
             ss = rng.sample(strat_pool, rng.randrange(1, 5))
+            if rng.random() < 0.35:
+                ss = rng.sample(['at1', 'at2', 'at3', 'at5', 'bh'], rng.randrange(2, 6))     # nearly equal outcomes in the tight price regime
             cases.append((rng.choice([1, 2, 3, 4, 8, 16]), rng.choice(['rec', 'data', 'html']), rng.choice([20, 45, 365]), ','.join(ss),
                           rng.randrange(1 << 30), rng.randrange(1, 9), rng.choice([15, 40, 70])))
     lines = ['b%d BT %s' % (i, ' '.join(map(str, c))) for i, c in enumerate(cases)]
@@ -356,6 +375,7 @@ def check_c13(res, tier, replay):
         sub = [l for l, c in zip(lines, cases) if c[0] > 1][:25 if tier == 'quick' else 200]
         gr = vlib.run_go(sub, race=True, nproc=3, timeout=1500)
         race_bad = [(k, v) for k, v in gr.items() if not v.startswith('ok fine')]
+        race_bad += [('b%d' % cases.index(next(c for c in cases if c[0] > 1)), 'DATA RACE report: ' + r) for r in vlib.race_reports()[:3]]
     bad = 0
     cells = set()
     for i, c in enumerate(cases):
@@ -368,14 +388,15 @@ def check_c13(res, tier, replay):
                                      'begin < assetBegin < writes < assetEnd < end; rankings non-increasing'})
     if race_bad:
         bad += 1
-        res.violation({'broken': 'data race or crash under -race', 'reports': [(k, v[:200]) for k, v in race_bad[:3]],
+        res.violation({'broken': 'data race or crash under -race', 'reports': [(k, v[:2500]) for k, v in race_bad[:3]],
                        'cases': [list(cases[int(k[1:])]) for k, _ in race_bad[:3]]})
     res.samples = [{'case': lines[i], 'go': go.get('b%d' % i, '')[:120]} for i in (0, len(lines) // 2)]
     res.coverage.update({
         'evaluations': len(cases), 'distinct_nontrivial': len(cells),
         'rule': 'workers (1..16) x report implementation (recording, DataReport, HTMLReport) x look-back window x strategy list x random assets; '
                 'the harness compares every delivered result with ComputeWithOutcome on the windowed snapshots, validates the call protocol and parses '
-                'the outcome columns of the generated HTML pages for non-increasing order',
+                'the outcome columns of the generated HTML pages for non-increasing order; the row order of every page is also compared with the exact outcomes '
+                '(scripted buy-at-k strategies on slowly drifting prices give outcomes closer than 0.01 percentage point) and the index entry of an asset must be its maximum',
         'violations_found': bad, 'race_detector_runs': len(race_bad) if race_bad else ((25 if tier == 'quick' else 200) if okr else 0),
         'traces_validated_against_impl': len(cases), 'trusted_base': vlib.TRUSTED + ['slices.SortFunc sorts with a lawful comparator (Go standard library)'],
     })
